@@ -451,8 +451,10 @@ void apply_drops(Model& m, const Json& d) {
     }
 }
 
-static std::string action_text(const ActionDef& a) {
-    std::string s = "ACTIONX\n  " + a.name + " " + std::to_string(a.max_run) + " " + num(a.min_wait) + " /\n";
+static std::string action_text(const ActionDef& a, double time_unit_seconds) {
+    // MIN_WAIT is given in deck time units (days; hours in LAB)
+    char mw[40]; std::snprintf(mw, sizeof mw, "%.17g", a.min_wait / time_unit_seconds);
+    std::string s = "ACTIONX\n  " + a.name + " " + std::to_string(a.max_run) + " " + mw + " /\n";
     for (auto& c : a.cond) { s += " "; for (auto& t : c.tokens()) { s += " "; s += t; } s += " /\n"; }
     s += "/\n";
     for (auto& k : a.body) s += k.text();
@@ -487,7 +489,7 @@ std::string deck_text(const Model& m, const DeckOpts& d) {
     if (m.sumthin > 0) o << "SUMTHIN\n " << num(m.sumthin) << " /\n";
     auto emit_block = [&](int k, const std::vector<Kw>& kws, const std::vector<ActionDef>& acts) {
         for (auto& kw : kws) o << kw.text();
-        if (!d.strip_actions) for (auto& a : acts) o << action_text(a);
+        if (!d.strip_actions) for (auto& a : acts) o << action_text(a, m.units == "LAB" ? 3600.0 : 86400.0);
         auto it = d.append_to_block.find(k);
         if (it != d.append_to_block.end()) for (auto& kw : it->second) o << kw.text();
     };
